@@ -273,7 +273,7 @@ def vocabulary_content_sweep(ctx):
     text), and trees whose ids are not strings: saved and loaded like any other."""
     from vlib import domain
     from vlib.emlkit import mrule
-    for e in mrule.node_names():
+    for e in list(mrule.node_names()) + [x for x in treegen.FOREIGN_NAMES if x] + treegen.unmodelled_eml_names():
         root = Node("verifHolder")
         for w in domain.CONTENT_WORDS:
             c = Node(e, content=w)
